@@ -75,7 +75,8 @@ func (i *Ignore) IsIncluded(path string, index *Index) bool {
 			target = fmt.Sprintf("%s/", path)
 		}
 	} else if err == nil {
-		if info.IsDir() && !directoryRegexp.MatchString(path) {
+		// a directory is matched with a trailing slash, at every depth
+		if info.IsDir() && !strings.HasSuffix(path, "/") {
 			target = fmt.Sprintf("%s/", path)
 		}
 	}
